@@ -159,7 +159,10 @@ class ModuleInfo(object):
         self.text = text
         try:
             from .normalise import normalise
-            self.tree = normalise(ast.parse(text, filename=path))
+            from .roles import restore_names
+            tree = ast.parse(text, filename=path)
+            self.restored_names = restore_names(name, tree)      # renamed private helpers get the names the rules know
+            self.tree = normalise(tree)
         except SyntaxError as exc:
             raise AnalysisError("syntax error in %s: %s" % (path, exc))
         self.is_package = path.endswith("__init__.py")
@@ -493,6 +496,16 @@ class Program(object):
         qn = short if short.startswith(PKG + ".") else "%s.%s" % (PKG, short)
         if qn in self.functions:
             return self.functions[qn]
+        # a module level function that was moved and is re-exported by an import of its old module
+        modname, _, fname = qn.rpartition(".")
+        mod = self.modules.get(modname)
+        if mod is not None and fname in mod.imports:
+            try:
+                r = self.resolve_expr_to_symbol(mod, ast.Name(id=fname, ctx=ast.Load()))
+            except Exception:
+                r = None
+            if isinstance(r, FuncInfo):
+                return r
         raise AnalysisError("anchor function %s vanished" % short)
 
     def has_func(self, short):
